@@ -47,7 +47,8 @@ def mailargs_cases(tier, rng):
     rgood = {"NOTIFY": b"NOTIFY=SUCCESS,FAILURE", "ORCPT": b"ORCPT=rfc822;o+40x", "ORCPTU": b"ORCPT=utf-8;o\\x{E9}@x", "RRVS": b"RRVS=2020-01-02T03:04:05Z",
              "RRVS2": b"RRVS=2020-02-29T23:59:59+05:30;C", "ORCPT;": b"ORCPT=rfc822;bob;ext@example.com", "ORCPT;;": b"ORCPT=rfc822;bob@example.com;",
              "ORCPTU;": b"ORCPT=utf-8;g\\x{3D}bob;s\\x{3D}smith@example.com", "ENVID;": b"RRVS=2020-01-02T03:04:05Z;C;x"}
-    rbad = {"NOTIFY": b"NOTIFY=NEVER,SUCCESS", "NOTIFY2": b"NOTIFY=", "ORCPT": b"ORCPT=x400;a", "ORCPT2": b"ORCPT=rfc822;", "RRVS": b"RRVS=2021-02-29T00:00:00Z",
+    rbad = {"NOTIFY": b"NOTIFY=NEVER,SUCCESS", "NOTIFY3": b"NOTIFY=SUCCESS,NEVER", "NOTIFY4": b"NOTIFY=FAILURE,DELAY,NEVER", "NOTIFY5": b"notify=success,never",
+            "NOTIFY6": b"NOTIFY=SUCCESS,SUCCESS", "NOTIFY7": b"NOTIFY=SUCCESS,", "NOTIFY8": b"NOTIFY=,SUCCESS", "NOTIFY9": b"NOTIFY=NEVER,NEVER", "NOTIFY2": b"NOTIFY=", "ORCPT": b"ORCPT=x400;a", "ORCPT2": b"ORCPT=rfc822;", "RRVS": b"RRVS=2021-02-29T00:00:00Z",
             "X": b"FOO"}
     flagsets = [dict(), dict(utf8=1, reqtls=1, binmime=1, dsn=1, rrvs=1), dict(dsn=1), dict(utf8=1, binmime=1), dict(rrvs=1, reqtls=1)]
     def variants(p):
